@@ -476,6 +476,10 @@ def stepLog (s : LogSt) (f : List String) (got : String) : StepResult St :=
           match q.deliver s.pub with
           | none => { skip with spec := fails }
           | some (q', true) =>
+            -- the publisher holds the packet the peer asks for (it published it and nothing removed it):
+            -- a fetch that reaches the publisher must be answered
+            let fails := fails ++ (if got.startsWith "noreply" then
+              [⟨"log-served", "no-reply", s!"peer {b} fetched a packet of the publisher's prefix log that the publisher has published, and the publisher did not answer: {got.take 120}"⟩] else [])
             { st := .log { s with peers := setPeer s.peers (b - 1) q' }, expected := some (dumpPeer q'), spec := fails,
               cov := [match q.pend with | some .snap => "deliver-snapshot" | _ => "deliver-op"], nontrivial := true }
           | some (q', false) =>
